@@ -6,6 +6,6 @@ S4 == <<10, 0, 4092, 3>>
 S5 == <<4090, 4096, 5, 0, 4097>>
 CutsSmall == {0, 1, 2, 3, 4, 5, 7, 14}
 CutsBig == {0, 1, 3, 4, 5, 4095, 4096, 4097, 4100}
-View == <<written, taken, buffered, lost, need, cur, delivered>>
+View == <<written, taken, buffered, lost, need, cur, delivered, broken>>
 Emit == Done => PrintT("BEHAV " \o ToJson([sizes |-> Sizes, steps |-> reads]))
 =============================================================================
